@@ -25,7 +25,7 @@ class C16(BaseCheck):
   REQUIRED_CLASSES = ('singleton', 'refcount', 'shared', 'concurrent-first-requests', 'replaced-after-failure',
                       'surplus-close', 'reopen-after-last-close', 'same-key', 'different-key',
                       'underlying-closed-while-held', 'underlying-state-changes',
-                      'requester-abandoned-while-opening', 'several-holders', 'holder-gone-before-connect', 'concurrent-holders', 'open-during-yielding-last-close',
+                      'requester-abandoned-while-opening', 'several-holders', 'holder-gone-before-connect', 'concurrent-holders', 'open-during-yielding-last-close', 'open-count-zero-while-held',
                       'surplus-close-from-inside-close', 'underlying-close-raises', 'underlying-open-fails-later')
   QUICK_CASES = 1500
   THOROUGH_CASES = 120000
@@ -461,6 +461,15 @@ class C16(BaseCheck):
       def state(self):
         return self.state_
 
+      def Open(self):
+        from scales.asynchronous import AsyncResult
+        ar_ = AsyncResult()
+        ar_.set(True)
+        return ar_
+
+      def Close(self):
+        pass
+
       def AsyncProcessRequest(self, *a):
         pass
 
@@ -476,6 +485,7 @@ class C16(BaseCheck):
     sp.next_provider = Next()
     keys = ['a', 'b', ('h', 1, 'lbl'), ('h', 2, 'lbl'), None][:rng.randint(2, 5)]
     held = {}     # key -> list of strong refs
+    opened_by = {}
     nops = rng.choice([5, 20, 60])
     concurrent = (idx // 3) % 2 == 1
     if concurrent and env is not None:
@@ -521,6 +531,20 @@ class C16(BaseCheck):
             if s is lst[0]:
               out.violate('shared:different-key-same-sink', 'keys %r and %r share one sink' % (k, k2), {})
         held.setdefault(k, []).append(s)
+      elif held.get(k) and rng.random() < 0.35 and k is not None:
+        # holders open and close the sink they hold (and keep holding it): with every holder closed the
+        # open count is zero, but the key still maps to the sink they all hold
+        classes.add('holders-open-and-close')
+        s_ = held[k][0]
+        n_open = opened_by.get(k, 0)
+        if n_open and rng.random() < 0.6:
+          s_.Close()
+          opened_by[k] = n_open - 1
+          if n_open == 1:
+            classes.add('open-count-zero-while-held')
+        else:
+          s_.Open()
+          opened_by[k] = n_open + 1
       elif held.get(k) and rng.random() < 0.3 and k is not None:
         # the shared connection dies while holders are alive: the key must still map to it
         held[k][0].next_sink.state_ = CLOSED
@@ -529,6 +553,7 @@ class C16(BaseCheck):
         held[k].pop()
         if not held[k]:
           classes.add('all-holders-gone')
+          opened_by.pop(k, None)
           gc.collect()
     out.classes = sorted(classes)
     out.nontrivial = nops >= 3
